@@ -1066,12 +1066,22 @@ def main():
         PID, results, t0=t0,
         explanation="Bounded symbolic execution + SMT of the real constitutive integration on the fragments where the local iteration can be executed symbolically: materials without internal variables, steps "
                     "inside the yield surface (zero local iterations), generalised Maxwell materials (linear local problem: one exact Newton step).  Strains, committed internal variables, time step and branch parameters are symbolic reals; "
-                    "value-dependent decisions (activity test, convergence tests, abs / max) are executed concolically and recorded as path conditions; identities are closed by exact normal forms or z3.",
+                    "value-dependent decisions (activity test, convergence tests, abs / max) are executed concolically and recorded as path conditions; identities are closed by exact normal forms or z3.  "
+                    "Plastic steps through the scalar spectral return: the Newton loop is abstracted by its exit condition (loop-carried theta havoc'd after the first real pass, the real residual and the real convergence "
+                    "test evaluated on the fresh symbol, their outcome recorded), everything after the loop is the real code; Simulations.InElastic with a Maxwell material and symbolic load amplitudes for the commit discipline.  "
+                    "'probe' jobs are concrete 100-step plastic paths (ground facts, no quantifier) for the configurations outside the symbolic bound.",
         bound={"elastic_laws": ["isotropic E=200 v=1/4", "isotropic E=70 v=0.3 (thorough)", "transversely isotropic with tilted axes"], "modes": modes, "surfaces": ["VonMises", "Hill (anisotropic coefficients)", "DruckerPrager"],
                "hardening": ["Linear"], "kinematic": ["ArmstrongFrederick", "Chaboche x2"], "Maxwell_branches": [1, 2], "gauss_points": 1,
-               "strain_box": "[-1,1]^n (no yield surface) / [-1/400,1/400]^n with sigma_y = 10 (inactive steps)", "steps": 1},
-        symbolic=["strain", "committed plastic strain, accumulated plastic strain, back strains, branch strains", "time step", "branch stiffness fraction g and relaxation time tau"],
-        assumptions=["claims hold on the recorded path conditions (sign / ordering decisions of the convergence norms at the shadow point); the outputs are the same rational functions on every such region",
+               "strain_box": "[-1,1]^n (no yield surface) / [-1/400,1/400]^n with sigma_y = 10 (inactive steps) / [-1/4,1/4]^n on the active path (spectral jobs)", "steps": 1,
+               "spectral_return": {"theta_star": "[0, 1/500] (theta lambda_max <= 1/2)", "H": "[0, 50]", "p": "[0, 1]", "surfaces": ["VonMises", "Hill (thorough)"], "modes": ["3D", "plane strain"],
+                                   "exit_condition": "both signs of the residual (two jobs per configuration)"},
+               "simulation": {"mesh": "tri4 / tetra2", "material": "one Maxwell branch", "load_amplitudes": "3 symbols in [-1,1]", "sequences": ["restore-save", "unsaved-solve"]},
+               "probes": "one 100-step path per (surface, hardening, kinematic, mode, solver) configuration - ground facts"},
+        symbolic=["strain", "committed plastic strain, accumulated plastic strain, back strains, branch strains", "time step", "branch stiffness fraction g and relaxation time tau",
+                  "theta* (abstracted Newton iterate of the spectral return)", "hardening modulus H", "load amplitudes of the simulation jobs"],
+        assumptions=["spectral jobs: the loop of _spectral.Solve is replaced by `any theta* >= 0 accepted by the real convergence test` (the clamp np.maximum(., 0) is assumed, exits through maxIter are outside); the consistent tangent of plastic steps is "
+                     "evaluated exactly at the shadow point only (ground fact)", "simu jobs: linear solver of the global Newton iterations = ideal solver (exact elimination)",
+                     "claims hold on the recorded path conditions (sign / ordering decisions of the convergence norms at the shadow point); the outputs are the same rational functions on every such region",
                      "plastic flow through the general local Newton (active points), rate laws, sub-stepping and MaterialPoint's stress-controlled loop are outside: nested Newton iterates are not encodable",
                      "elastic constants concrete", "real-number semantics over the exact binary constants (float round-off outside)"],
         source_files=["EasyFEA/Models/InElastic", "EasyFEA/Simulations/_inelastic.py"],
